@@ -39,7 +39,7 @@ ANCHORS = ['penman.model:Model.errors', 'penman.model:_dfs', 'penman.model:Model
 PROBES = {'C17': 5}
 MIN_EVAL = {'quick': 10000, 'thorough': 150000}
 REQUIRED_COUNTERS = ['errors_calls', 'unreachable_seen', 'invalid_role_seen', 'cli_runs', 'cli_multi_file',
-                     'cli_subprocess', 'cli_exit_nonzero', 'cli_exit_zero']
+                     'cli_subprocess', 'cli_exit_nonzero', 'cli_exit_zero', 'cli_quiet', 'cli_many_errors']
 SRC = ['a', 'b', 'c', 'i']
 TGT = ['a', 'b', 'c', 'i', 'x', None]
 ROLES = [':instance', ':ARG0', ':ARG0-of', ':foo', ':foo-of', ':consist-of', ':mod', ':ARG0-of-of',
@@ -55,6 +55,14 @@ def cases(ctx):
     yield 'exh', {'maxlen': 2, 'mod': ctx.nshards, 'rem': ctx.shard}
     n = 3000 if q else 50000
     ncli = 120 if q else 2500
+    # graphs with very many offending triples, and many offending graphs (the exit status is a
+    # verdict, not a counter: 256 errors are still an error)
+    many = [(255, 1), (256, 1), (257, 1), (512, 1), (128, 2), (64, 4), (1, 256), (2, 128)]
+    if not q:
+        many += [(1024, 1), (768, 1), (1, 512), (85, 3), (51, 5), (16, 16), (4, 64), (4096, 1)]
+    for j, (k, copies) in enumerate(many):
+        if j % ctx.nshards == ctx.shard:
+            yield 'climany', {'k': k, 'copies': copies}
     ctx.new_phase()
     for i in range(n):
         if not ctx.time_left():
@@ -168,6 +176,40 @@ def oracle(ctx, kind, p):
                         'reference_report': {repr(k): v for k, v in exp.items()}})
     elif kind == 'cli':
         run_cli_case(ctx, p)
+    elif kind == 'climany':
+        k, copies = p['k'], p['copies']
+        one = '(a / alpha ' + ' '.join(f':attr{j} {j}' for j in range(k)) + ')'
+        text = '(g / good)\n\n' + '\n\n'.join(one.replace('(a ', f'(a{c} ') for c in range(copies)) + '\n\n(h / fine)\n'
+        d = tempfile.mkdtemp(prefix='pmon-c16-')
+        try:
+            path = os.path.join(d, 'many.txt')
+            with open(path, 'w', encoding='utf-8') as fh:
+                fh.write(text)
+            env = dict(os.environ, PYTHONHASHSEED='0', PYTHONPATH=_repo())
+            for how, argv, inp in (('file', ['--check', path], None), ('stdin', ['--check'], text),
+                                   ('file --quiet', ['--quiet', '--check', path], None)):
+                r = subprocess.run([sys.executable, '-m', 'penman'] + argv, input=inp, capture_output=True,
+                                   text=True, env=env, cwd=d, timeout=300, encoding='utf-8')
+                ctx.count('cli_many_errors')
+                ctx.count('cli_subprocess')
+                if r.returncode == 0:
+                    ctx.fail('cli:exit-status', mech='zero-despite-error',
+                             detail={'how': 'subprocess ' + how, 'offending_triples_per_graph': k,
+                                     'offending_graphs': copies, 'exit': r.returncode, 'err': r.stderr[-300:]})
+                if 'quiet' not in how:
+                    rec = sum(1 for ln in r.stdout.splitlines() if ln.startswith('# ::error-'))
+                    if rec != k * copies:
+                        ctx.fail('cli:offending-triple-not-recorded', mech='count',
+                                 detail={'how': how, 'recorded': rec, 'offending': k * copies})
+            code, _out = run_main(['--check', path], None)
+            ctx.count('cli_runs')
+            if code == 0:
+                ctx.fail('cli:exit-status', mech='zero-despite-error',
+                         detail={'how': 'in-process', 'offending_triples_per_graph': k, 'offending_graphs': copies})
+        finally:
+            import shutil
+            shutil.rmtree(d, ignore_errors=True)
+        ctx.case(p, True)
 
 
 # ---------------------------------------------------------------- CLI
